@@ -81,7 +81,57 @@ def run(cmd, stdin=None, timeout=TIMEOUT, env=None, cwd=None, stdin_file=None):
         return -9, ex.stdout or b"", ex.stderr or b"", True
 
 
-def cli(args, stdin=None, timeout=TIMEOUT, env=None, cwd=None, stdin_file=None):
+def run_on_tty(cmd, stdin=None, timeout=TIMEOUT, env=None, cwd=None):
+    """like run(), with the standard error stream attached to a terminal (80 x 24 pseudo-terminal): progress bars
+    and messages are then really drawn. Returns what was written to the terminal as the stderr text."""
+    import fcntl
+    import pty
+    import struct
+    import termios
+    e = dict(os.environ)
+    e.pop("RUST_BACKTRACE", None)
+    e["TERM"] = "xterm"
+    if env:
+        e.update(env)
+    master, slave = pty.openpty()
+    fcntl.ioctl(slave, termios.TIOCSWINSZ, struct.pack("HHHH", 24, 80, 0, 0))
+    chunks = []
+
+    def drain():
+        while True:
+            try:
+                b = os.read(master, 65536)
+            except OSError:
+                return
+            if not b:
+                return
+            chunks.append(b)
+
+    th = threading.Thread(target=drain, daemon=True)
+    th.start()
+    timed_out = False
+    try:
+        p = subprocess.Popen(cmd, stdin=subprocess.PIPE if stdin is not None else subprocess.DEVNULL, stdout=subprocess.PIPE, stderr=slave, env=e, cwd=cwd)
+        os.close(slave)
+        try:
+            so, _ = p.communicate(stdin, timeout=timeout)
+        except subprocess.TimeoutExpired:
+            p.kill()
+            so, _ = p.communicate()
+            timed_out = True
+        rc = p.returncode
+    finally:
+        th.join(2)
+        try:
+            os.close(master)
+        except OSError:
+            pass
+    return (-9 if timed_out else rc), so or b"", b"".join(chunks), timed_out
+
+
+def cli(args, stdin=None, timeout=TIMEOUT, env=None, cwd=None, stdin_file=None, tty=False):
+    if tty:
+        return run_on_tty([fe.CLI] + args, stdin=stdin, timeout=timeout, env=env, cwd=cwd)
     return run([fe.CLI] + args, stdin=stdin, timeout=timeout, env=env, cwd=cwd, stdin_file=stdin_file)
 
 
@@ -148,7 +198,18 @@ def write_inputs(d, name, recs, ids=None):
         open(pz, "wb").write(gzip.compress(data[:cut]) + gzip.compress(data[cut:]))
         paths[suffix[1:] + ".gz"] = pz
     paths["fa_bytes"] = fa
+    for key in ("fa", "fq", "fa.gz", "fq.gz"):
+        side_cars(paths[key])
     return paths
+
+
+def side_cars(path):
+    """files that tools of the trade leave next to a sequence file (samtools faidx / bgzip indexes), describing another
+    version of it and not older than it: nothing a run computes may come from them"""
+    with open(path + ".fai", "wb") as f:
+        f.write(b"r0\t17\t4\t17\t18\nzz\t5\t30\t5\t6\n")
+    with open(path + ".gzi", "wb") as f:
+        f.write(b"\x01\x00\x00\x00\x00\x00\x00\x00" + b"\x10\x00\x00\x00\x00\x00\x00\x00" * 2)
 
 
 def refusal(rc, err, timed_out):
@@ -1023,7 +1084,7 @@ def c13(tier):
     if rc != 0 or not os.path.exists(exp):
         raise fe.Machinery("ktmc expect failed: %s" % err[-500:])
     driver = os.path.join(fe.VERIF, "py", "pydriver.py")
-    jobs = [("iter", None)] + [("batch", n) for n in (1, 2, 8, 16)] + [("bigbatch", 4)]
+    jobs = [("iter", None)] + [("batch", n) for n in (1, 2, 8, 16)] + [("bigbatch", 4), ("pythreads", 4)]
     skipped = []
     if tier == "thorough":
         try:
@@ -1133,6 +1194,8 @@ def c16_check(variant, recs, t, wd, final_newline=True):
     elif not final_newline and data.endswith(b"\n"):
         data = data[:-1]
     open(inp, "wb").write(data)
+    if (len(data) + t) % 3 == 0:
+        side_cars(inp)
     out = os.path.join(wd, "out put" if mode == 1 else "out")
     # half of the cases (by content) find the results of an earlier, larger run at the output location
     if (len(data) + t) % 2 == 0:
@@ -1174,8 +1237,11 @@ def c16_check(variant, recs, t, wd, final_newline=True):
     if t == 0:
         # automatic thread count: what rayon's environment variable says, by content of the case
         env = {"RAYON_NUM_THREADS": ["0", "1", "3"][len(data) % 3]}
-    rc, so, err, to = cli(args, stdin=stdin, cwd=cwd, env=env)
-    cmdline = ("RAYON_NUM_THREADS=%s " % env["RAYON_NUM_THREADS"] if env else "") + "kmertools " + " ".join(args) + (" [run in the directory of the input]" if cwd else "") + (" on records %r" % (recs,) if len(recs) <= 12 else " on %d records %r..." % (len(recs), recs[:6]))
+    # a quarter of the cases (by content) run with the standard error stream on a terminal, where the progress
+    # display is really drawn
+    tty = (len(data) + t) % 4 == 1
+    rc, so, err, to = cli(args, stdin=stdin, cwd=cwd, env=env, tty=tty)
+    cmdline = ("RAYON_NUM_THREADS=%s " % env["RAYON_NUM_THREADS"] if env else "") + "kmertools " + " ".join(args) + (" [stderr on a terminal]" if tty else "") + (" [run in the directory of the input]" if cwd else "") + (" on records %r" % (recs,) if len(recs) <= 12 else " on %d records %r..." % (len(recs), recs[:6]))
     if to:
         return ("hang", "%s: no exit within %d s" % (cmdline, TIMEOUT))
     has_bad = any(pm.cls(b) is None for r in recs for b in r)
@@ -1572,6 +1638,171 @@ def c17(tier):
 
 
 # ------------------------------------------------------------------------------------------------ C03 / C04 observation points
+
+def c_sink_fifo(tier, kinds):
+    """what the output path names is part of the environment: a regular file, or a FIFO whose reader is slower than the
+    writers (`-o >(gzip > x.gz)`, `-o /dev/stdout | ...`, mkfifo). Records long enough for result lines of hundreds of
+    KiB, 8 threads, the reader starting a second late; oracle = the canonical content of the one-thread run into a
+    regular file. Free-running (one execution per kind and attempt)."""
+    import time
+    rep = Rep()
+    d = fresh_dir("fifo")
+    x = 20250917
+    recs = []
+    for i in range(24):
+        r = bytearray()
+        for _ in range(40_000 if i % 3 else 9_000):
+            x = (x * 6364136223846793005 + 1442695040888963407) % (1 << 64)
+            r.append(b"ACGT"[(x >> 40) % 4])
+        recs.append(bytes(r))
+    inp = os.path.join(d, "in.fa")
+    open(inp, "wb").write(fasta_bytes(recs))
+    ARGS = {
+        "s2m": ["min", "-m", "7", "-w", "8", "-p", "s2m"], "m2s": ["min", "-m", "7", "-w", "8", "-p", "m2s"],
+        "oligo-c": ["comp", "oligo", "-c", "-k", "3"], "cgr": ["comp", "cgr", "-v", "16"], "kcgr": ["comp", "cgr", "-k", "3", "-v", "16"],
+    }
+
+    def canon(kind, data):
+        if data is None:
+            return None
+        if kind == "m2s":
+            return m2s_canon(data)
+        if kind == "s2m":
+            return sorted(lines_of(data) or [])
+        return data
+
+    def do(job):
+        kind, attempt = job
+        wd = fresh_dir("fifo")
+        ref = os.path.join(wd, "ref.txt")
+        a = ARGS[kind]
+        base = a[:2] if a[0] == "comp" else a[:1]
+        rest = a[len(base):]
+        rc0, so, err0, to0 = cli(base + ["-i", inp, "-o", ref] + rest + ["-t", "1"], timeout=300)
+        if rc0 != 0 or read(ref) is None:
+            raise fe.Machinery("c_sink_fifo: the reference run of %s failed: exit %s %r" % (kind, rc0, err0[-200:]))
+        fifo = os.path.join(wd, "out.fifo")
+        os.mkfifo(fifo)
+        got = []
+
+        def reader():
+            time.sleep(1.0 + 0.5 * attempt)
+            with open(fifo, "rb") as f:
+                while True:
+                    b = f.read(1 << 16)
+                    if not b:
+                        break
+                    got.append(b)
+                    if len(got) < 200:
+                        time.sleep(0.002)  # a consumer slower than the writers
+
+        th = threading.Thread(target=reader, daemon=True)
+        th.start()
+        rc, so, err, to = cli(base + ["-i", inp, "-o", fifo] + rest + ["-t", "8"], timeout=300)
+        th.join(60)
+        rep.ev(1, 1)
+        data = b"".join(got)
+        if rc != 0 or to or canon(kind, data) != canon(kind, read(ref)):
+            rep.violation("result-depends-on-kind-of-output-file", 10, "kmertools %s -t 8 writing to a FIFO with a slow reader: exit %s, %d bytes / %d lines; the one-thread run into a regular file: %d bytes / %d lines, canonical contents differ %r" % (
+                " ".join(a), rc, len(data), data.count(b"\n"), len(read(ref)), read(ref).count(b"\n"), err[-200:]), "c_sink_fifo", {"kind": kind})
+        shutil.rmtree(wd, ignore_errors=True)
+
+    attempts = 1 if tier == "quick" else 3
+    pmap(do, [(k, a) for k in kinds for a in range(attempts)])
+    rep.count("env.fifo_runs", len(kinds) * attempts)
+    rep.sample("kmertools min -p s2m -t 8 -o <fifo read by a slow consumer>: same set of lines as -t 1 into a file")
+    return rep.done()
+
+
+def c17_interrupted(tier):
+    """histories in which an earlier run did not finish: the run is cut off at a crash point chosen by a file-size
+    limit (RLIMIT_FSIZE: the process is terminated by SIGXFSZ at the first write that would take any of its files
+    beyond L bytes), for every L of a geometric ladder; then a complete run of another job goes into the same
+    location. Oracle: its documented result files equal those of the same run in a fresh location."""
+    import resource
+    rep = Rep()
+    d = fresh_dir("c17int")
+    big = lcg_records(300, 4242, 200, 420, False)
+    small = lcg_records(3, 99, 30, 60, False)
+    pb = write_inputs(d, "big", big)["fa"]
+    ps = write_inputs(d, "small", small)["fa"]
+    KINDS = {
+        "oligo": (["comp", "oligo"], ["-k", "4", "-t", "2"], None),
+        "oligo-c": (["comp", "oligo"], ["-c", "-k", "4", "-t", "2"], None),
+        "cgr": (["comp", "cgr"], ["-v", "16", "-t", "2"], None),
+        "kcgr": (["comp", "cgr"], ["-k", "4", "-v", "16", "-t", "2"], None),
+        "s2m": (["min"], ["-m", "7", "-w", "11", "-p", "s2m", "-t", "2"], None),
+        "m2s": (["min"], ["-m", "7", "-w", "11", "-p", "m2s", "-t", "2"], None),
+        "ctr": (["ctr"], ["-k", "11", "-t", "2"], ["kmers.counts"]),
+        "ctr-acgt": (["ctr"], ["-k", "11", "-a", "-t", "2"], ["kmers.counts"]),
+        "cov": (["cov"], ["-k", "11", "-s", "5", "-c", "5", "-t", "2"], ["kmers.counts", "kmers.vectors"]),
+    }
+    ladder = [0, 1 << 9, 1 << 11, 1 << 13, 1 << 15, 1 << 17, 1 << 19] if tier == "quick" else [0] + [1 << i for i in range(6, 23)] + [3 * (1 << i) for i in range(8, 20, 2)]
+
+    def result(kind, out):
+        files = KINDS[kind][2]
+        if files is None:
+            data = read(out)
+            if data is None:
+                return None
+            return m2s_canon(data) if kind == "m2s" else sorted(lines_of(data) or []) if kind == "s2m" else data
+        res = {}
+        for f in files:
+            data = read(os.path.join(out, f))
+            res[f] = None if data is None else (sorted(lines_of(data) or []) if f == "kmers.counts" else data)
+        return res
+
+    def invoke(kind, inp, out, limit=None):
+        base, rest, _ = KINDS[kind]
+        cmd = [fe.CLI] + base + ["-i", inp, "-o", out] + rest
+        e = dict(os.environ)
+        e.pop("RUST_BACKTRACE", None)
+
+        def pre():
+            if limit is not None:
+                resource.setrlimit(resource.RLIMIT_FSIZE, (limit, limit))
+                resource.setrlimit(resource.RLIMIT_CORE, (0, 0))
+        try:
+            p = subprocess.run(cmd, stdin=subprocess.DEVNULL, stdout=subprocess.PIPE, stderr=subprocess.PIPE, timeout=120, env=e, preexec_fn=pre)
+            return p.returncode, p.stderr
+        except subprocess.TimeoutExpired:
+            return -9, b"timeout"
+
+    fresh_cache = {}
+    lock = threading.Lock()
+
+    def do(job):
+        kind, L = job
+        wd = fresh_dir("int")
+        shared = os.path.join(wd, "shared")
+        rc1, err1 = invoke(kind, pb, shared, L)
+        rc2, err2 = invoke(kind, ps, shared)
+        with lock:
+            have = kind in fresh_cache
+        if not have:
+            fr = os.path.join(wd, "fresh")
+            rcf, errf = invoke(kind, ps, fr)
+            if rcf != 0:
+                raise fe.Machinery("c17_interrupted: the run into a fresh location failed for %s: %r" % (kind, errf[-200:]))
+            with lock:
+                fresh_cache[kind] = result(kind, fr)
+        rep.ev(1, 1)
+        rep.outcome("%s: first run under limit -> %s" % (kind, "finished" if rc1 == 0 else "cut off"))
+        got = result(kind, shared)
+        if rc2 != 0 or got != fresh_cache[kind]:
+            rep.violation("depends-on-interrupted-run", 10, "kmertools %s on 3 records into a location where an earlier run (300 records) was cut off by a file-size limit of %d bytes (its exit status %s): exit %s %r; result differs from the same run in a fresh location (%s)" % (
+                kind, L, rc1, rc2, err2[-160:], "missing" if got is None else "present"), "c17_interrupted", {"kind": kind, "limit": L})
+        shutil.rmtree(wd, ignore_errors=True)
+
+    jobs = [(k, L) for k in KINDS for L in ladder]
+    # the reference runs first (one per kind), then the histories
+    pmap(do, [(k, ladder[0]) for k in KINDS])
+    pmap(do, [j for j in jobs if j[1] != ladder[0]])
+    rep.count("c17.interrupted_histories", len(jobs))
+    rep.count("c17.crash_points_per_job", len(ladder))
+    rep.sample("kmertools ctr on 300 records cut off by RLIMIT_FSIZE = 32768, then ctr on 3 records into the same directory: kmers.counts equals that of a fresh directory")
+    return rep.done()
+
 
 def c17_devices(tier):
     """file identity across file systems (py/c17dev.py, run in a private mount namespace with two fresh tmpfs mounts):
